@@ -161,6 +161,13 @@ def main(pid, explorer, deps_gen=(), extra_vo=(), assumptions=(), not_modelled='
         proof_broken.append('forbidden declarations in the development: ' + ', '.join(bad[:10]))
     pa, pa_ok = (assumptions_of(pid, theorems) if ok else ([], False))
     discharged = len([1 for t, txt in pa if txt.startswith('Closed') or txt.startswith('Axioms:')]) if ok else 0
+    chk_summary = None
+    if ok and tier == 'thorough':
+        # independent re-check of the compiled property file and everything it depends on
+        r = vlib.sh(['timeout', '3000', 'coqchk', '-silent', '-o', '-Q', '.', 'Theo', 'Theo.Properties_%s' % pid], cwd=COQ)
+        chk_summary = ' '.join(r.stdout[r.stdout.find('CONTEXT SUMMARY'):].split()) if 'CONTEXT SUMMARY' in r.stdout else 'coqchk failed: ' + r.stdout[-300:]
+        if r.returncode != 0:
+            proof_broken.append('coqchk rejects Properties_%s.vo' % pid)
     model, merr = vlib.build_model()
     if model is None:
         tie_broken.append({'what': 'the extracted model does not build', 'detail': (merr or '')[-1500:]})
@@ -214,6 +221,8 @@ def main(pid, explorer, deps_gen=(), extra_vo=(), assumptions=(), not_modelled='
           'hand-written model of the C++ (see DESIGN.md §2.3, §9)']
     for t, txt in pa:
         tb.append('Print Assumptions %s: %s' % (t, txt))
+    if chk_summary:
+        tb.append('coqchk -o: ' + chk_summary)
     cov = {
         'obligations': max(1, len(theorems) + len([1 for n, e in tr.items()])),
         'discharged': (discharged + len([1 for n, e in tr.items() if not e])) if not proof_broken else discharged,
